@@ -207,6 +207,7 @@ pub fn cases(tier: Tier, seed: u64) -> Vec<Case> {
         ("conv-conv4-conv/1x2x2-into-4x1x1", Shape::Triple(1, 2, 2), vec![c1(1, 1, 0), c1(4, 2, 0), c1(2, 1, 0)], (1, 2)),
         ("dense-dense-conv/flat4-into-1x2x2", Shape::Single(2), vec![L::Dense(4, Linear, false), L::Dense(4, Tanh, true), c1(1, 2, 0)], (1, 2)),
         ("conv-conv-dense-dense/1x2x2-into-flat4", Shape::Triple(1, 2, 2), vec![c1(1, 1, 0), c1(1, 3, 1), L::Dense(2, Linear, false)], (1, 2)),
+        ("conv-conv-conv/1x2x3-into-1x3x2", Shape::Triple(1, 2, 3), vec![c1(1, 1, 0), L::Conv(1, (2, 2), (1, 1), (1, 0), (1, 1), Linear), c1(1, 1, 0)], (1, 2)),
         ("conv-deconv-conv/2x1x2-into-1x2x2", Shape::Triple(1, 2, 2), vec![L::Conv(2, (2, 1), (1, 1), (0, 0), (1, 1), Linear), L::Deconv(1, (2, 1), (1, 1), (0, 0), Linear), c1(1, 2, 0)], (1, 2)),
     ];
     for (name, input, layers, conn) in reps.into_iter() {
